@@ -38,12 +38,27 @@ pub fn pattern(n: usize) -> Vec<u8> {
 const OPCODES: [u8; 6] = [0, 1, 2, 8, 9, 10];
 
 fn focus_cuts(len: usize) -> Vec<usize> {
-    let mut f: Vec<usize> = (1..=16.min(len)).collect();
-    for d in 1..=2 {
+    // the header, the extended length, the key and the first payload bytes; the last bytes; and the places
+    // where a chunked or buffered reader would wrap (4 KiB / 8 KiB / 64 KiB, counted from the start of the frame
+    // and from the start of the payload under each header size)
+    let mut f: Vec<usize> = (1..=24.min(len)).collect();
+    for b in [4096usize, 8192, 65536] {
+        for h in [0usize, 2, 4, 6, 8, 10, 14] {
+            for d in [-1i64, 0, 1] {
+                let p = (b + h) as i64 + d;
+                if p > 0 && (p as usize) < len {
+                    f.push(p as usize);
+                }
+            }
+        }
+    }
+    for d in 1..=4 {
         if len > d {
             f.push(len - d);
         }
     }
+    f.sort();
+    f.dedup();
     f
 }
 
@@ -280,19 +295,19 @@ pub fn run(mut cx: Ctx) -> ! {
     cx.rule = "every frame of the product FIN x RSV x opcode x mask/key x length class is encoded by the real encoder, compared byte-for-byte with a reference RFC 6455 encoder, and decoded by the real decoder under every read plan (whole, bytewise, every single cut in the first 16 and last 2 bytes; pairs of cuts in thorough); all 65536 two-byte headers are completed / truncated and decoded; states = distinct frames or inputs, transitions = codec calls; non-trivial = masked or extended-length frames, valid-opcode headers, truncations".into();
     let quick = cx.quick();
     let lens: Vec<usize> = if quick {
-        vec![0, 1, 124, 125, 126, 127, 128, 65534, 65535, 65536, 65537]
+        vec![0, 1, 2, 3, 4, 5, 124, 125, 126, 127, 128, 255, 256, 4095, 4096, 4097, 8192, 65534, 65535, 65536, 65537, 131072]
     } else {
-        vec![0, 1, 2, 3, 4, 5, 124, 125, 126, 127, 128, 255, 256, 65534, 65535, 65536, 65537, 131072, 1 << 20]
+        vec![0, 1, 2, 3, 4, 5, 6, 7, 8, 9, 124, 125, 126, 127, 128, 255, 256, 4090, 4095, 4096, 4097, 8191, 8192, 8193, 65534, 65535, 65536, 65537, 131072, 1 << 20, (1 << 22) + 3]
     };
     let keys: Vec<[u8; 4]> = if quick {
-        vec![[0; 4], [0xff; 4], [1, 2, 3, 4], [0x80, 0, 0, 1]]
-    } else {
         vec![[0; 4], [0xff; 4], [1, 2, 3, 4], [0x80, 0, 0, 1], [0, 0, 0, 1], [0xaa, 0x55, 0xaa, 0x55], [0x7e, 0x7f, 0x80, 0x81]]
+    } else {
+        vec![[0; 4], [0xff; 4], [1, 2, 3, 4], [0x80, 0, 0, 1], [0, 0, 0, 1], [0xaa, 0x55, 0xaa, 0x55], [0x7e, 0x7f, 0x80, 0x81], [1, 0, 0, 0], [0, 1, 0, 0], [0, 0, 1, 0], [0x12, 0x34, 0x56, 0x78], [0xde, 0xad, 0xbe, 0xef]]
     };
     cx.bound("payload_lengths", json!(lens));
     cx.bound("mask_keys", keys.len());
     let mut st = Stats::default();
-    roundtrip_family(&mut st, &lens, &keys, if quick { Depth::Single } else { Depth::Pairs });
+    roundtrip_family(&mut st, &lens, &keys, Depth::Pairs);
     all_headers(&mut st);
     truncations(&mut st);
     messages(&mut st, &lens);
